@@ -112,7 +112,7 @@ fn panicking_ids(script: &str) -> String {
     for c in script.chars() {
         match c {
             'e' | 'b' => k += 1,
-            'p' => {
+            'p' | 'q' | 'r' | 's' => {
                 v.push(k.to_string());
                 k += 1
             }
@@ -125,7 +125,10 @@ fn panicking_ids(script: &str) -> String {
 /// Run one script on the real pool in this process. Must be called at most once per process after a
 /// run that was not `clean` (threads of the old pool may still be alive).
 pub fn run_script(n: usize, script: &str, seed: u64) -> RunResult {
-    let ntasks = script.chars().filter(|c| matches!(c, 'e' | 'p' | 'b')).count();
+    // panics with a message go through the process-wide panic hook; start every script from the quiet one (a pool with a
+    // monitor subscribed to ThreadPoolPanic installs its own)
+    std::panic::set_hook(Box::new(|_| {}));
+    let ntasks = script.chars().filter(|c| matches!(c, 'e' | 'p' | 'q' | 'r' | 's' | 'b')).count();
     let started_in_script = script.contains('S');
     let has_barrier = script.contains('b');
     let mut rng = Rng::new(seed);
@@ -158,11 +161,25 @@ pub fn run_script(n: usize, script: &str, seed: u64) -> RunResult {
         .name("caller".into())
         .spawn(move || {
             let mut pool = Some(ThreadPool::new(n));
+            let mut monitor_rx = Vec::new(); // receivers of registered monitors stay alive for the whole script
             let mut k = 0usize;
             for c in script_owned {
                 match c {
                     'S' => pool.as_mut().unwrap().start(),
-                    'e' | 'p' | 'b' => {
+                    // `M`: a monitor subscribed to the pool's panic events (changes how the pool observes panics: it
+                    // installs a panic hook), `m`: a monitor subscribed to something else
+                    'M' | 'm' => {
+                        let (mtx, mrx) = std::sync::mpsc::channel();
+                        let cfg = humphrey::monitor::MonitorConfig::new(mtx);
+                        let cfg = if c == 'M' {
+                            cfg.with_subscription_to(humphrey::monitor::event::EventType::ThreadPoolPanic)
+                        } else {
+                            cfg.with_subscription_to(humphrey::monitor::event::EventType::RequestServedSuccess)
+                        };
+                        pool.as_mut().unwrap().register_monitor(cfg);
+                        monitor_rx.push(mrx);
+                    }
+                    'e' | 'p' | 'q' | 'r' | 's' | 'b' => {
                         let id = k;
                         k += 1;
                         let sh = sh.clone();
@@ -186,11 +203,17 @@ pub fn run_script(n: usize, script: &str, seed: u64) -> RunResult {
                             } else if spin == 2 {
                                 std::thread::yield_now();
                             }
-                            if c == 'p' {
+                            if matches!(c, 'p' | 'q' | 'r' | 's') {
                                 perturb(record(format!("c{}.{}", id, w)));
                                 sh.done[id].store(true, Ordering::SeqCst);
-                                // quiet panic: no panic hook, still `thread::panicking()` while unwinding
-                                std::panic::resume_unwind(Box::new(()));
+                                match c {
+                                    // quiet panic: no panic hook, still `thread::panicking()` while unwinding
+                                    'p' => std::panic::resume_unwind(Box::new(())),
+                                    // the kinds of payload a task can panic with: literal, formatted, not a string at all
+                                    'q' => panic!("task failed"),
+                                    'r' => panic!("task {} failed", id),
+                                    _ => std::panic::panic_any(id as u32),
+                                }
                             }
                             perturb(record(format!("e{}.{}", id, w)));
                             sh.done[id].store(true, Ordering::SeqCst);
@@ -385,6 +408,20 @@ fn scripts(thorough: bool, seed: u64) -> Vec<(usize, String, u64)> {
             }
         }
     }
+    // configuration block: monitors (subscribed to the pool's panic events or not) x the payload a task panics with
+    // (quiet unwind, literal message, formatted message, a value that is no string)
+    for n in 1..=3usize {
+        for mon in ["", "M", "m"] {
+            for kind in ['p', 'q', 'r', 's'] {
+                for body in ["k", "ek", "ke", "kk", "ekeke", "kekek", "eeekeee"] {
+                    let body: String = body.chars().map(|c| if c == 'k' { kind } else { c }).collect();
+                    v.push((n, format!("{}S{}D", mon, body)));
+                    v.push((n, format!("{}S{}TD", mon, body)));
+                    v.push((n, format!("{}S{}wTD", mon, body)));
+                }
+            }
+        }
+    }
     // random block: settle points, barrier tasks, stop position
     let mut rng = Rng::new(seed ^ 0xC08);
     let extra = if thorough { 200_000 } else { 20_000 };
@@ -444,7 +481,10 @@ pub fn gen(out: &mut Out, thorough: bool, seed: u64) {
     for (n, script, log, summary) in results.into_iter().flatten() {
         done += 1;
         let panics = panicking_ids(&script);
-        let npan = script.chars().filter(|c| *c == 'p').count();
+        let npan = script.chars().filter(|c| matches!(c, 'p' | 'q' | 'r' | 's')).count();
+        if script.contains('M') { out.count("monitor_subscribed_to_pool_panics"); }
+        if script.contains('q') || script.contains('r') { out.count("panic_with_message"); }
+        if script.contains('s') { out.count("panic_with_non_string_payload"); }
         out.count(&format!("N={}", n));
         out.count(&format!("panicking_tasks={}", npan.min(4)));
         out.count(if script.contains('T') { "with_stop" } else { "without_stop" });
@@ -470,7 +510,7 @@ pub fn gen(out: &mut Out, thorough: bool, seed: u64) {
         if seen.values().any(|c| *c >= 2) {
             out.count("same_worker_id_respawned_twice");
         }
-        let nontrivial = script.contains('S') && script.chars().any(|c| matches!(c, 'e' | 'p' | 'b'));
+        let nontrivial = script.contains('S') && script.chars().any(|c| matches!(c, 'e' | 'p' | 'q' | 'r' | 's' | 'b'));
         out.case(&["pool", &n.to_string(), &script, &panics, &log], &summary, nontrivial);
     }
     if done < jobs.len() {
